@@ -166,3 +166,14 @@ prop("C17",
      "StreamSerializer emits a zero-length block for an empty batch; (B2) single and batch read/write use paired framing routines with the same element routine.",
      "Block arithmetic of ReadBlocksIntoVector for all capacities (table exception with its invariant stated), generated NDJSON from_json for records, Python iterables.",
      COMMON_ASSUME)
+
+prop("C04",
+     "Structural clauses of 'the schema pins down the encoding': (A1) every back end embeds the unmodified result of dsl.GetProtocolSchemaString and readers "
+     "alias the writer's literal; (A2) marshal coverage — every wire-relevant field of the model (frozen list per node type) is marshalled by tag or read "
+     "inside the type's custom MarshalJSON, every `json:\"-\"` field is in the audited neutral list, and the compact rank-only array form is chosen only "
+     "when no dimension has a name or a length; (A3) the type list is sorted by qualified name, computed fields are cleared, removeComments covers every "
+     "node type with a marshalled Comment; (V5) the transitive-closure visitor of GetProtocolSchema prunes only at audited places (so types used only as "
+     "generic arguments are included); (PH1/SR3/PB2) header order in the Python and C++ runtimes, and the Python output stream never lets a direct write "
+     "overtake buffered bytes; (H1) generated readers submit the schema they read to the check.",
+     "That EVERY wire-affecting edit changes the JSON text (needs the semantics of encoding), MATLAB runtime header code, the C++ NDJSON header.",
+     COMMON_ASSUME)
